@@ -102,10 +102,15 @@ Print Assumptions c15_updates_reach_listeners.
 Theorem c15_late_join_current : forall u vf h oc oa od x, consistent vf h ->
   let h' := h ++ [Subscribe oc oa od] in
   let log := last (subs (run u h')) [] in
-  (In log (subs (run u h')) /   (subs (run u h) <> [] ->
-      exists rest, log = map add_call (order_by oc (cur (run u h))) ++ rest /                   Permutation.Permutation (order_by oc (cur (run u h))) (cur (run u h))) /   (forall ops, calls_of ops = log ->
-      exists vs, fst (get_values (crun x ops)) = Ok vs /\ NoDup vs /        forall v, In v vs <->
-          exists k, u k = true /\ kget k (spec_etcd h') = Some v /\ (x = true -> last_add log v = Some k))) /  (forall ops, calls_of ops = log ->
+  In log (subs (run u h')) /\
+  (subs (run u h) <> [] ->
+     exists rest, log = map add_call (order_by oc (cur (run u h))) ++ rest /\
+                  Permutation.Permutation (order_by oc (cur (run u h))) (cur (run u h))) /\
+  (forall ops, calls_of ops = log ->
+     exists vs, fst (get_values (crun x ops)) = Ok vs /\ NoDup vs /\
+       forall v, In v vs <->
+         exists k, u k = true /\ kget k (spec_etcd h') = Some v /\ (x = true -> last_add log v = Some k)) /\
+  (forall ops, calls_of ops = log ->
      forall k v, kget k (mapping (crun x ops)) = Some v <->
                  u k = true /\ kget k (spec_etcd h') = Some v /\ (x = true -> last_add log v = Some k)).
 Proof.
@@ -135,7 +140,9 @@ Print Assumptions c15_subscribers_agree.
    key still carries it. Exclusive or not. *)
 Theorem c15_duplicate_delivery : forall vf x ops k v n, calls_ok vf (calls_of ops) -> v = vf k ->
   let c := crun x (ops ++ map OCall (repeat (CAdd k v) n) ++ [OCall (CDel k)]) in
-  kget k (mapping c) = None /  exists vs, fst (get_values c) = Ok vs /\ NoDup vs /    forall v', In v' vs <-> exists k', k' <> k /\ kget k' (mapping c) = Some v'.
+  kget k (mapping c) = None /\
+  exists vs, fst (get_values c) = Ok vs /\ NoDup vs /\
+    forall v', In v' vs <-> exists k', k' <> k /\ kget k' (mapping c) = Some v'.
 Proof. exact duplicate_delivery. Qed.
 Print Assumptions c15_duplicate_delivery.
 
@@ -146,7 +153,8 @@ Print Assumptions c15_duplicate_delivery.
 Theorem c15_resolver_no_lost_update : forall init sched,
   let r := rrun build_order init sched in
   r_todo r = [] ->
-  exists ops ps, calls_of ops = init ++ arrived sched /                 r_pushes r = ps ++ [fst (get_values (crun false ops))].
+  exists ops ps, calls_of ops = init ++ arrived sched /\
+                 r_pushes r = ps ++ [fst (get_values (crun false ops))].
 Proof. exact resolver_no_lost_update. Qed.
 Print Assumptions c15_resolver_no_lost_update.
 
@@ -163,14 +171,17 @@ Print Assumptions c15_resolver_current.
 Example c15_resolver_push_first_loses :
   let sched := [None; None; Some (CAdd 1 7); None] in
   let r := rrun [BSubscribe; BPush; BListen] [] sched in
-  r_todo r = [] /\ r_pushes r = [Ok []] /  option_map (fun ops => fst (get_values (crun false ops))) (r_ops r) = Some (Ok [7]).
+  r_todo r = [] /\ r_pushes r = [Ok []] /\
+  option_map (fun ops => fst (get_values (crun false ops))) (r_ops r) = Some (Ok [7]).
 Proof. exact resolver_push_first_loses. Qed.
 
 (* keys sharing a value: a late joiner that was told one key per value would drop a live value *)
 Example c15_late_join_shared_keys :
   let u := fun _ : key => true in
   let h := [Subscribe [] [] []; Put 1 7 true; Put 2 7 true; Subscribe [] [] []; Del 1 true] in
-  synced u h = true /  map (fun log => fst (get_values (crun false (map OCall log)))) (subs (run u h)) = [Ok [7]; Ok [7]] /  map (fun log => mapping (crun false (map OCall log))) (subs (run u h)) = [[(2, 7)]; [(2, 7)]].
+  synced u h = true /\
+  map (fun log => fst (get_values (crun false (map OCall log)))) (subs (run u h)) = [Ok [7]; Ok [7]] /\
+  map (fun log => mapping (crun false (map OCall log))) (subs (run u h)) = [[(2, 7)]; [(2, 7)]].
 Proof. vm_compute. repeat split; reflexivity. Qed.
 
 (* Finding D5 (repaired): without `c.values[key] = m` in handleChanges the second reload diffs against the
